@@ -94,6 +94,46 @@ func genSnapScenario(r *verifsim.Run) *cScenario {
 func runCSnap(r *verifsim.Run) {
 	sc := genSnapScenario(r)
 	var opt cSchedOpts
+	if r.Chance(1, 5) {
+		// a run long enough (1 fps, > 2 simulated minutes) for the daemon's own window triggers to fire:
+		// window active from the start, ending at 00:04 -> triggers at +1 min and at 00:02
+		sc.Conns = sc.Conns[:1]
+		cn := sc.Conns[0]
+		cn.Cfg.Fps = 1
+		cn.Cfg.WinStart, cn.Cfg.WinStop = "23:00", "00:04"
+		cn.CutAt = -1
+		val := 1
+		for i := range cn.Ev {
+			if cn.Ev[i].ID >= val {
+				val = cn.Ev[i].ID + 1
+			}
+		}
+		for len(cn.Ev) < 135 {
+			p := make([][]uint16, cn.Cfg.H)
+			for y := range p {
+				p[y] = make([]uint16, cn.Cfg.W)
+				for x := range p[y] {
+					p[y][x] = uint16(val)
+				}
+			}
+			cn.Ev = append(cn.Ev, cEvent{Kind: 'F', Pix: p, ID: val})
+			val++
+		}
+		up := uint32(60000) // uptime consistent with 1 fps
+		for i := range cn.Ev {
+			if cn.Ev[i].Kind == 'F' || cn.Ev[i].Kind == 'B' {
+				up += 1000
+				cn.Ev[i].Tel = telFor(up, cn.Ev[i].ID)
+			}
+		}
+		for i := range cn.Costs {
+			if cn.Costs[i] > 20 {
+				cn.Costs[i] = 20
+			}
+		}
+		opt.Triggers = true
+		r.Probe("window-trigger-task")
+	}
 	opt.Clients = r.Range(1, 3)
 	opt.MaxFree = -1
 	totalFrames := 0
